@@ -662,6 +662,22 @@ def r85(rep: Report, ctx: Ctx) -> None:
                                  and rev.value is False))
         rep.ob("R8.5", f"sort key {unparse(key)[:50]}", ok, fi=fi, node=s,
                detail="key must be start_timestamp, ascending")
+    # the between-groups sort must see groups already sorted inside (it keys
+    # on element 0 = the group's earliest member)
+    fdefs = ctx.defs(fi)
+    outer = [s for s in sorts if kw(s, "key") is not None and "[0]" in
+             unparse(kw(s, "key"))]
+    inner = [s for s in sorts if s not in outer]
+    if outer and inner:
+        src = fdefs.resolve_deep(outer[0].args[0]) if outer[0].args else None
+        text = unparse(src) if src is not None else ""
+        ok = any(unparse(i) in text for i in inner)
+        rep.ob("R8.5", "groups are ordered by their earliest member (inner "
+               "sort feeds the outer sort)", ok, fi=fi, node=outer[0],
+               detail=(f"outer sort input: {text[:90]}"
+                       + ("" if ok else " -- element 0 of an unsorted group "
+                          "is whichever member was listed first, not the "
+                          "earliest")))
     asy = ctx.func("sequence_groups_of_otel_events_asynchronously")
     defs = ctx.defs(asy)
     loops = [n for n in ast.walk(asy.node) if isinstance(n, ast.For)]
